@@ -446,9 +446,7 @@ Returns:
             del em
             if not _solver._fcalls[0]: #FIXME: HACK workaround dropped _fcalls
                 lm = len(_solver._evalmon)   # ...but only works if has evalmon
-                _solver._fcalls[0] = fcalls[lr] or \
-                                     (lm if _solver.Terminated() else 0)
-                                    #(le if s.Terminated() else 0)
+                _solver._fcalls[0] = fcalls[lr] + (lm - le) # old + new calls
             self._allSolvers[lr] = _solver #XXX: update not replace?
         return
 
